@@ -10,7 +10,7 @@ import ast
 
 import sympy as sp
 
-from .stencil import (store_outside_table, Extractor, SV, Lab, TabRef, ARange, Boys, c, linear_terms, offsets, resolve_aranges, target_index_symbols,
+from .stencil import (Store, Idx, store_outside_table, Extractor, SV, Lab, TabRef, ARange, Boys, c, linear_terms, offsets, resolve_aranges, target_index_symbols,
                       LabelMismatch)
 from .report import AnalysisError
 
@@ -110,6 +110,103 @@ def _stencil_of(ex, store):
     out = [merged[k] for k in order]
     const = resolve_aranges(ex, store, const).subs(subs) if const != 0 else sp.Integer(0)
     return out, const, tsyms, subs
+
+
+class RegionStore(Store):
+    """A store together with the in-place increments that follow it (`T[i] = a; T[i, 1:] += b`), restricted to one region of the
+    partition of its target the increments induce: on that region the recursion step is the sum of the parts that cover it."""
+    region_text = ""
+
+    @property
+    def text(self):
+        return ast.unparse(self.node.targets[0]) + self.region_text
+
+
+def compose_increments(ex, stores):
+    """`T[idx] = a` directly followed (same loop nest) by `T[sub] += b` stores whose targets are `idx` with the leading entry of some
+    axes cut off: replaced by one synthetic store per region (head entry / rest, per cut axis) whose recurrence is `a` plus the
+    increments that cover the region.  Stencil terms are offsets relative to the target index with coefficients in the target index
+    symbols, so a part restricted to a sub-region keeps its terms; on a head entry the index symbol becomes that constant."""
+    import copy
+    import itertools
+    out = []
+    k = 0
+    while k < len(stores):
+        b = stores[k]
+        incs = []
+        j = k + 1
+        while j < len(stores):
+            s2 = stores[j]
+            if s2.table is not b.table or s2.loops != b.loops or len(s2.index) != len(b.index):
+                break
+            try:
+                terms2, const2, _ts2, _sb2 = stencil_of(ex, s2)
+            except (LabelMismatch, AnalysisError):
+                break
+            selfref = [t for t in terms2 if all((not isinstance(o, tuple)) and o.is_number and o == 0 for o in t["offset"])]
+            if len(selfref) != 1 or sp.simplify(selfref[0]["coef"] - 1) != 0:
+                break
+            cut = []
+            ok = True
+            for ax, (ib, i2) in enumerate(zip(b.index, s2.index)):
+                win = ("slice", "full")
+                if ib.kind in win and i2.kind in win and sp.simplify(i2.lo - ib.lo - 1) == 0 and sp.simplify(i2.hi - ib.hi) == 0:
+                    cut.append(ax)
+                elif (ib.kind == i2.kind or (ib.kind in win and i2.kind in win)) and sp.simplify(sp.sympify(i2.lo) - sp.sympify(ib.lo)) == 0 and sp.simplify(sp.sympify(i2.hi) - sp.sympify(ib.hi)) == 0 \
+                        and (ib.value is None and i2.value is None or (ib.value is not None and i2.value is not None and sp.simplify(ib.value - i2.value) == 0)):
+                    continue
+                else:
+                    ok = False
+                    break
+            if not ok or not cut:
+                break
+            incs.append((s2, [t for t in terms2 if t is not selfref[0]], const2, cut))
+            j += 1
+        if not incs:
+            out.append(b)
+            k += 1
+            continue
+        try:
+            terms_b, const_b, _tsb, subs_b = stencil_of(ex, b)
+        except (LabelMismatch, AnalysisError):
+            out.extend(stores[k:j])
+            k = j
+            continue
+        if any(all((not isinstance(o, tuple)) and o.is_number and o == 0 for o in t["offset"]) for t in terms_b):
+            out.extend(stores[k:j])
+            k = j
+            continue
+        axes = sorted({ax for _s, _t, _c, cut in incs for ax in cut})
+        for choice in itertools.product(("head", "rest"), repeat=len(axes)):
+            where = dict(zip(axes, choice))
+            rs = RegionStore(b.func, b.node, b.table, list(b.index), b.rhs, b.loops)
+            sub_const = {}
+            for ax, wh in where.items():
+                ib = b.index[ax]
+                if wh == "head":
+                    rs.index[ax] = Idx("const", value=sp.sympify(ib.lo), text=str(ib.lo))
+                    sub_const[sp.Symbol(f"t{ax}", integer=True)] = sp.sympify(ib.lo)
+                else:
+                    rs.index[ax] = Idx(ib.kind if ib.kind != "full" else "slice", value=ib.value, lo=ib.lo + 1, hi=ib.hi, text=f"{ib.lo + 1}:")
+            parts = [(terms_b, const_b)] + [(t2, c2) for _s2, t2, c2, cut in incs if all(where[ax] == "rest" for ax in cut)]
+            merged, order = {}, []
+            const = sp.Integer(0)
+            for tl, cc in parts:
+                const = const + (cc.subs(sub_const) if hasattr(cc, "subs") else cc)
+                for t in tl:
+                    key = tuple(str(o) for o in t["offset"])
+                    cf = norm_rat(t["coef"].subs(sub_const))
+                    if key in merged:
+                        merged[key]["coef"] = norm_rat(merged[key]["coef"] + cf)
+                    else:
+                        merged[key] = dict(t, coef=cf)
+                        order.append(key)
+            rs.region_text = " (with the increments that follow) on " + ", ".join(f"axis {ax}: {'first entry' if wh == 'head' else 'the rest'}" for ax, wh in where.items())
+            rs.parts = [b] + [s2 for s2, _t, _c, _cut in incs]
+            _STENCIL_CACHE[id(rs)] = (rs, ([merged[k2] for k2 in order], const, target_index_symbols(rs), subs_b))
+            out.append(rs)
+        k = j
+    return out
 
 
 def tvalues(tsyms):
@@ -222,7 +319,7 @@ def check_moment_kernel(repo, f, roles, findings, rule="S", ex=None, only=None):
     n_axes = len(tab.labels)
     rec_stores = []
     info["dead"] = []
-    for s in ex.stores:
+    for s in compose_increments(ex, list(ex.stores)):
         if s.table is tab and store_outside_table(s, tab):
             # the caller asked for a table that does not reach this entry (e.g. order 0 for the overlap): the store writes into an
             # empty slice / its loop is empty, so nothing this caller computes depends on it
